@@ -8,7 +8,7 @@ from __future__ import annotations
 
 import struct
 
-from vf import contracts, core
+from vf import contracts, core, repotests
 from vf.ref import crypto as R
 
 ID = "C05"
@@ -119,6 +119,9 @@ def _faults(pkt, hk):
 
 
 def check_case(case, ctx):
+    if case.get("op") == "repo_test":
+        repotests.run(ctx, ['tests/test_c2.py'], [contracts.install_c2], {"c2.pad.post": "c2.pad.post"})
+        return
     from dissect.cobaltstrike import c2
 
     contracts.install_c2()
@@ -197,6 +200,7 @@ def plan(tier, seed):
         shards.append({"kind": "packets", "n": 40 if q else 900, "nbig": 30 if q else 400, "part": i})
     shards.append({"kind": "framing", "n": 600 if q else 20000})
     shards.append({"kind": "framing", "n": 600 if q else 20000})
+    shards.append({"kind": "repo_tests"})
     for s in shards:
         s["budget_s"] = 50 if q else 1500
         s["timeout_s"] = 300 if q else 3600
@@ -204,6 +208,9 @@ def plan(tier, seed):
 
 
 def run_shard(shard, ctx):
+    if shard["kind"] == "repo_tests":
+        repotests.run(ctx, ['tests/test_c2.py'], [contracts.install_c2], {"c2.pad.post": "c2.pad.post"})
+        return
     rng = ctx.rng
     if shard["kind"] == "packets":
         for i in range(shard["n"]):
